@@ -304,6 +304,19 @@ def run(tier):
     guard_coherence(ctl, cn2, prefix="c02::")
     if not any(fd[0] == "G5b.guard-coherence" for fd in cn2.findings):
         ck.closed_fail.append("G5b control failed: the fixture frame rooted in a foreign guard was not reported")
+    # ---------------- G4e accumulators across collection points
+    import accum
+    ck.rule("G4e.accumulator-rooted", "a local Vec<JsValue> filled, turn by turn, with the results of calls that may collect guards what it has gathered so far", floor=4)
+    for f4, sp4, ok4, prod4 in accum.rule(fx, lambda g: g.file.startswith(("src/interpreter", "src/value"))):
+        ck.instance("G4e.accumulator-rooted", "%s: push of a value produced by %s in the same loop" % (f4.path, prod4.split("::")[-1]), F.short_span(sp4), ok=ok4)
+        if not ok4:
+            ck.finding("G4e.accumulator-rooted", "G4e.accumulator-rooted/%s" % (f4.parent if f4.closure else f4.path), F.short_span(sp4),
+                       "`%s` gathers the results of `%s` in a local vector and calls it again without guarding what it has gathered: the objects of earlier turns are "
+                       "referenced by nothing the collector sees (`[...gen()]` of fresh objects gives references to a reused slot under GC pressure)" % (f4.path, prod4.split("::")[-1]))
+    got4 = sorted((f4.path.split("::")[-1], ok4) for f4, sp4, ok4, prod4 in accum.rule(ctl, lambda g: g.path.startswith("c02::"), vec_ty="Vec<value::JsValue>",
+                                                                                    guard_suffix="Guard::<T>::guard"))
+    if got4 != [("bad_collect", False), ("good_collect", True)]:
+        ck.closed_fail.append("G4e control failed: fixture gives %s" % got4)
     return ck.finish()
 
 
